@@ -13,9 +13,10 @@ from .. import core
 ID = "C11"
 MODULE = "DrandProofs.C11"
 THEOREMS = ["Drand.Beacon.Stream." + t for t in [
-    "c11_scan_exact", "c11_live_fifo", "c11_no_repeat", "c11_sent_stored", "c11_exact_partial",
-    "c11_gap_counterexample", "c11_memdb_shift_counterexample", "c11_detach_counterexample",
-    "c11_exact_tracked", "c11_tracked_complete", "c11_net_projection", "tie_syncchain_calls", "tie_syncchain_guards",
+    "tie_syncchain_calls", "tie_syncchain_guards",
+    "c11_scan_exact", "c11_scan_out_stored", "drop_seekIdx", "c11_live_fifo", "c11_no_repeat", "c11_sent_stored", "c11_exact_partial",
+    "c11_gap_counterexample", "c11_gap_counterexample'", "c11_memdb_shift_counterexample", "c11_memdb_evicted_counterexample",
+    "c11_detach_counterexample", "c11_exact_tracked", "frm_step", "c11_net_projection",
 ]]
 TRUSTED = ["Lean 4 kernel; axioms per theorem under coverage.axioms",
            "modelled, not verified: goroutine scheduling (every interleaving of the listed steps is a schedule), Go channels (FIFO), bbolt read transactions (a snapshot), memdb cursor (position into the live slice; C18 correspondence)",
